@@ -17,7 +17,7 @@ type intrinsic func(ex *Exec, fr *Frame, st *State, site ssa.Instruction, args [
 var intrinsics = map[string]intrinsic{}
 
 var intrinsicDocs = map[string]string{
-	"io.ReadFull":                        "io.ReadFull(r,buf): a returned error is never a buffer.MessageSizeExceeded chain; err==nil => n==len(buf), buf filled with the next len(buf) stream bytes, position advances by len(buf); err!=nil => 0<=n<len(buf), position advances by n, first n cells filled; len(buf)==0 => (0,nil); err==io.EOF => n==0; writes only buf's cells",
+	"io.ReadFull":                        "io.ReadFull(r,buf): the input stream is finite (positions never exceed its length); a returned error is never a buffer.MessageSizeExceeded chain; err==nil => n==len(buf), buf filled with the next len(buf) stream bytes, position advances by len(buf); err!=nil => 0<=n<len(buf), position advances by n, first n cells filled; len(buf)==0 => (0,nil); err==io.EOF => n==0; writes only buf's cells",
 	"iface buffer.BufferedReader.ReadByte": "ReadByte: err==nil => result is the next stream byte and position advances by 1; err!=nil => position unchanged",
 	"bufio.NewReaderSize":                "bufio.NewReaderSize(rd,n): fresh reader at stream position 0 of rd",
 	"(binary.bigEndian).Uint32":          "BigEndian.Uint32(b): requires len(b)>=4; big-endian value of b[0..4)",
@@ -84,6 +84,7 @@ func init() {
 		st.regionWrite(buf.Arr(), lo, Add(lo, n), tByte, func(l Leaf, idx *Term) *Term {
 			return UF("stream", SInt, id, Add(pos, Sub(idx, lo)))
 		})
+		st.assume(And(Le(Int(0), pos), Le(Add(pos, n), UF("streamlen", SInt, id))))
 		setBufGhost(st, "pos", id, Add(pos, n))
 		return Value{T: resT, L: []*Term{n, err.L[0], err.L[1]}}
 	}
@@ -96,6 +97,7 @@ func init() {
 		st.assume(InRange(b, 8, false))
 		st.assume(Implies(ok, Eq(b, UF("stream", SInt, id, pos))))
 		transportErr(st, err)
+		st.assume(And(Le(Int(0), pos), Le(Ite(ok, Add(pos, Int(1)), pos), UF("streamlen", SInt, id))))
 		setBufGhost(st, "pos", id, Ite(ok, Add(pos, Int(1)), pos))
 		return Value{T: resT, L: []*Term{b, err.L[0], err.L[1]}}
 	}
